@@ -6,6 +6,7 @@
 package c19
 
 import (
+	"math"
 	"fmt"
 	"sort"
 	"testing"
@@ -64,9 +65,16 @@ func runCase(rec *mon.Recorder, c int) {
 	nextId := 1
 	// priorities: small tie-rich set, or floats
 	tieRich := rng.Intn(2) == 0
+	// every fourth tie-rich case draws from the edges of the non-negative floats instead of small integers:
+	// negative zero (equal to zero, accepted by Push), zero, the smallest subnormal, one, the largest finite value
+	edges := []float32{float32(math.Copysign(0, -1)), 0, math.SmallestNonzeroFloat32, 1, math.MaxFloat32, math.MaxFloat32}
 	prio := func() float32 {
 		if tieRich {
-			return float32(rng.Intn(6))
+			v := rng.Intn(6)
+			if c%4 == 1 {
+				return edges[v]
+			}
+			return float32(v)
 		}
 		return rng.Float32() * 100
 	}
